@@ -286,7 +286,7 @@ def _family_store(self, lo, hi, val, same_known):
             t = val.tok(ops_binop('-', qk, lo))
         finally:
             c.guards.pop()
-        loops.check_closed(t, before)
+        loops.check_closed(t, min(before, levels[0].stamp), allowed=loops.level_names(levels) + [str(qk.z) if hasattr(qk, 'z') else ''])
         t_w = loops.subst(t, pairs + [(zint(qk), zint(q))])
         if cond is True:
             return t_w
